@@ -70,30 +70,45 @@ static std::string readNewLog() {
 struct Report { std::string kind, id, text; std::vector<std::string> tops; };
 
 // "#0 occa::gc::ring_t<occa::memory>::removeRef(occa::memory*, bool) /p/gc.tpp:80:14 (libocca.so+0x1)" -> occa::gc::ring_t::removeRef
+// "#1 occa::dtype_t const*& std::vector<occa::dtype_t const*>::emplace_back<occa::dtype_t const*>(...) ..." -> std::vector::emplace_back
 static std::string frameFunction(const std::string &line) {
   size_t p = line.find('#');
   if (p == std::string::npos) return "";
   p = line.find(' ', p);
   if (p == std::string::npos) return "";
   ++p;
-  std::string fn;
+  // 1. drop template arguments (operator< / operator<< / operator-> are not brackets)
+  std::string src = line.substr(p), flat;
+  for (size_t a; (a = src.find("(anonymous namespace)")) != std::string::npos; ) src.replace(a, 21, "{anonymous}");
   int depth = 0;
-  for (; p < line.size(); ++p) {
-    const char c = line[p];
-    if (c == '<') {
-      // "operator<" / "operator<<" are not template brackets
-      if (fn.size() >= 8 && fn.compare(fn.size() - 8, 8, "operator") == 0) { fn += c; continue; }
-      ++depth; continue;
-    }
-    if (c == '>') { if (depth > 0) { --depth; continue; } fn += c; continue; }
+  for (p = 0; p < src.size(); ++p) {
+    const char c = src[p];
+    const bool afterOperator = flat.size() >= 8 && (flat.compare(flat.size() - 8, 8, "operator") == 0 ||
+                                                    (flat.size() >= 9 && flat.compare(flat.size() - 9, 9, "operator<") == 0) ||
+                                                    (flat.size() >= 9 && flat.compare(flat.size() - 9, 9, "operator-") == 0));
+    if (c == '<' && !afterOperator) { ++depth; continue; }
+    if (c == '>' && depth > 0) { --depth; continue; }
     if (depth > 0) continue;
-    if (c == '(' || c == ' ') {
-      if (c == ' ' && (fn == "operator" || fn.empty())) { fn += c; continue; }
-      break;
-    }
-    fn += c;
+    flat += c;
   }
-  return fn;
+  // 2. the function name ends at the first '(' that opens the parameter list
+  size_t q = 0;
+  for (;;) {
+    q = flat.find('(', q);
+    if (q == std::string::npos) { q = flat.find(' '); break; }
+    if (q >= 8 && flat.compare(q - 8, 8, "operator") == 0) { q += 2; continue; }   // operator()
+    if (q == 0 || flat[q - 1] == ' ' || flat[q - 1] == ':') { ++q; continue; }       // "(anonymous namespace)::"
+    break;
+  }
+  std::string head = q == std::string::npos ? flat : flat.substr(0, q);
+  // 3. a return type may precede the name (the symbolizer prints it for function templates)
+  size_t sp = head.rfind(' ');
+  while (sp != std::string::npos && sp >= 8 && head.compare(sp - 8, 8, "operator") == 0 && sp > 8) sp = head.rfind(' ', sp - 1);
+  if (sp != std::string::npos && head.compare(0, std::min<size_t>(head.size(), 8), "operator") != 0) {
+    const std::string last = head.substr(sp + 1);
+    if (!last.empty()) head = last;
+  }
+  return head;
 }
 
 static std::vector<Report> parseReports(const std::string &txt) {
@@ -209,6 +224,7 @@ struct TS {
   ll poolSize = 0;
   std::string fail;
   ll seedEntries = 0;
+  bool openmp = false;
 
   TS() {
     for (int i = 0; i < NMEM; ++i) { memEntries[i] = 0; memBuf[i] = -1; }
@@ -379,7 +395,8 @@ static void execOp(TS &s, const Op &o) {
   case KDROP: s.dropKern((int) (A(0) % NKERN)); break;
   case RUN: {
     const int ki = (int) (A(0) % NKERN);
-    if (s.kernWhich[ki] < 0) break;
+    // OpenMP kernels are not run here: libgomp is not instrumented, TSan cannot see its synchronisation and reports false races
+    if (s.kernWhich[ki] < 0 || s.openmp) break;
     // target: a private malloc or a private pool reservation
     occa::memory *tgt = NULL; ll n = 0;
     const int want = (int) (A(1) % (NMEM + NRES));
@@ -520,7 +537,7 @@ static bool runCase(const Case &c, Ctx &ctx) {
         ts.emplace_back(new TS());
         TS &s = *ts.back();
         s.bdev = dev; s.bmem = smem; s.bkern = skern; s.bstream = sstream; s.bpool = spool;
-        s.seedEntries = seedEntries;
+        s.seedEntries = seedEntries; s.openmp = mode != 0;
       }
       // the main thread's own handles go away here: the rings now only hold the threads' handles
     }
